@@ -152,9 +152,7 @@ def random_case(rng: random.Random):
         kind = rng.choice(["soft", "soft", "hard", "softsq"])
         if kind == "softsq":
             s = 16 * rng.randint(1, 8)
-            cx, cy = 16 * rng.randint(1, W // 16), 16 * rng.randint(1, H // 16)
-            if cx - s // 2 < 0 or cy - s // 2 < 0:
-                cx, cy = cx + s, cy + s
+            cx, cy = 16 * rng.randint(0, W // 16), 16 * rng.randint(0, H // 16)   # may stick out on any side
             mods.append([kind, [[cx - s // 2, cy - s // 2, cx + s // 2, cy + s // 2]]])
             continue
         x1, y1 = 8 * rng.randint(0, W // 8), 8 * rng.randint(0, H // 8)
